@@ -22,7 +22,8 @@ func init() { suites["STORE"] = suiteStore }
 var (
 	stNamespaces = []string{"n", "m"}
 	stBadNs      = []string{"zz", "", "N"}
-	stObjects    = []string{"o1", "o2", "", "o:#@", "世界", "u1"}
+	// names are opaque strings: also ones that look like something else (a UUID in several notations)
+	stObjects    = []string{"o1", "o2", "", "o:#@", "世界", "u1", "6ba7b810-9dad-11d1-80b4-00c04fd430c8", "6BA7B810-9DAD-11D1-80B4-00C04FD430C8", "{6ba7b810-9dad-11d1-80b4-00c04fd430c8}"}
 	stRelations  = []string{"r", "s", ""}
 	stSubjects   = []string{"u1", "u2", "o1", "", "a b"}
 )
